@@ -30,10 +30,15 @@ type rewrite struct {
 	imports map[string]string // old import path -> new import path
 }
 
-var rewrites = []rewrite{}
+var rewrites = []rewrite{
+	{"handlers/inmem/inmem.go", map[string]string{"sync": modPath + "/verifshim/vsync"}},
+	{"metrics/counters.go", map[string]string{"sync/atomic": modPath + "/verifshim/vatomic"}},
+	{"metrics/histograms.go", map[string]string{"sync": modPath + "/verifshim/vsync", "sync/atomic": modPath + "/verifshim/vatomic"}},
+	{"protocol/binprot/headers.go", map[string]string{"sync": modPath + "/verifshim/vsync"}},
+}
 
 // shimPkgs are directories under -shim copied to <repo>/verifshim/<name>.
-var shimPkgs = []string{}
+var shimPkgs = []string{"vsync", "vatomic"}
 
 func die(f string, a ...interface{}) {
 	fmt.Fprintf(os.Stderr, "overlaygen: "+f+"\n", a...)
@@ -67,6 +72,7 @@ func main() {
 						base := old[strings.LastIndex(old, "/")+1:]
 						im.Name = ast.NewIdent(base)
 					}
+					im.EndPos = 0
 					im.Path.Value = strconv.Quote(nw)
 				}
 			}
@@ -124,4 +130,52 @@ func extra(repo, work string, replace map[string]string) {
 		die("%v", err)
 	}
 	replace[filepath.Join(repo, "metrics", "verif_portable_lzcnt.go")] = dst
+
+	// read-only view of the in-memory backend's private map for C17 (fingerprints, reset)
+	inm, err := os.ReadFile(filepath.Join(repo, "handlers", "inmem", "inmem.go"))
+	if err != nil {
+		die("%v", err)
+	}
+	for _, need := range []string{"var singleton = &Handler{", "data  map[string]entry", "exptime uint32", "flags   uint32", "data    []byte"} {
+		if !strings.Contains(string(inm), need) {
+			die("handlers/inmem/inmem.go no longer contains %q: the C17 export cannot be generated", need)
+		}
+	}
+	exp := `package inmem
+
+import (
+	"fmt"
+	"sort"
+)
+
+// VerifSnapshot renders the singleton's map without taking its lock (harness use only).
+func VerifSnapshot() string {
+	ks := make([]string, 0, len(singleton.data))
+	for k := range singleton.data {
+		ks = append(ks, k)
+	}
+	sort.Strings(ks)
+	out := ""
+	for _, k := range ks {
+		e := singleton.data[k]
+		out += fmt.Sprintf("%q=%q/%x/%d;", k, e.data, e.flags, e.exptime)
+	}
+	return out
+}
+
+// VerifReset empties the singleton's map.
+func VerifReset() {
+	for k := range singleton.data {
+		delete(singleton.data, k)
+	}
+}
+
+// VerifMutex returns the singleton's lock (identity only).
+func VerifMutex() interface{} { return singleton.mutex }
+`
+	dst = filepath.Join(work, "inmem__verif_export.go")
+	if err := os.WriteFile(dst, []byte(exp), 0o644); err != nil {
+		die("%v", err)
+	}
+	replace[filepath.Join(repo, "handlers", "inmem", "verif_export.go")] = dst
 }
